@@ -80,7 +80,7 @@ class C09(Check):
     def cases(self):
         cs = []
         for platform in ("ledger", "sgx", "tcp"):
-            for pinstate in ("file", "absent", "forced"):
+            for pinstate in ("file", "absent", "forced", "file-is-default", "file-noenv"):
                 if platform == "tcp" and pinstate != "file":
                     continue
                 for first in range(5):            # shard on the onboarded answer
@@ -117,9 +117,11 @@ class C09(Check):
             w.get_dongle = get_dongle
             harness.bind_world(w)
             fs = memfs.MemFS()
-            if case["pin"] in ("file", "forced"):
+            if case["pin"] in ("file", "forced", "file-noenv"):
                 fs.files[PIN_FILE] = GOOD_PIN
-            environ = {"PIN": DEFAULT_PIN.decode()}
+            elif case["pin"] == "file-is-default":
+                fs.files[PIN_FILE] = DEFAULT_PIN      # the file holds the very PIN of the environment
+            environ = {} if case["pin"] == "file-noenv" else {"PIN": DEFAULT_PIN.decode()}
             record = []
             seams = fakeserver.ManagerSeams(fs, record, DetRandom(), environ, PIN_DIR)
             seams.install()
@@ -229,6 +231,24 @@ class C09(Check):
         else:
             expect = (onboarded and v.get("mode") == 3 and "signer_version" in v
                       and supports(v["signer_version"]))
+        if (boot and onboarded and safe and v.get("unlock") == "ok" and not needs_change
+                and v.get("connect-1") == "ok" and platform != "tcp"):
+            # everything was fine so far and no PIN change is due: the manager has to go on (the
+            # configuration is lazy: a dimension it never asked about is a step it never took)
+            nxt = None
+            if "connect-2" not in v:
+                nxt = "reconnect after the unlock"
+            elif v["connect-2"] == "ok" and "post_mode" not in v:
+                nxt = "mode query after the reconnect"
+            elif v.get("connect-2") == "ok" and v.get("post_mode") == 3 and "signer_version" not in v:
+                nxt = "signer version query"
+            if nxt is not None:
+                viol("stops-without-reason", {"missing_step": nxt, "pins": [k for k, _ in pins],
+                                              "crashed": crashed, "config": {k: v[k] for k in cfg.order}},
+                     "the bring-up continues: " + nxt)
+        if new_pins and not needs_change:
+            viol("pin-changed-without-need", {"pins": [k for k, _ in pins], "pin_state": case["pin"]},
+                 "no new PIN: the file exists and no change was forced")
         if platform == "tcp" and boot:
             expect = False if not served else expect
         if v.get("connect-1") != "ok":
